@@ -82,6 +82,22 @@ impl<'a> Tape<'a> {
     }
 }
 
+/// Split a tape into an auxiliary tape (every third word: decisions, sources, layout) and a main
+/// tape (the rest: the program generator), so that the small choices are not starved when a big
+/// generator exhausts the tape.
+pub fn split_tape(words: &[u32]) -> (Vec<u32>, Vec<u32>) {
+    let mut aux = vec![];
+    let mut main = vec![];
+    for (i, w) in words.iter().enumerate() {
+        if i % 3 == 0 {
+            aux.push(*w);
+        } else {
+            main.push(*w);
+        }
+    }
+    (aux, main)
+}
+
 // ------------------------------------------------------------------------------------------------
 // Panic capture
 
